@@ -13,43 +13,44 @@ func init() {
 		regSpec(f)
 	}
 	shared := func() []scen.Spec {
-		return []scen.Spec{scen.Core(), scen.Basket(), scen.Market(), scen.BridgeSpec(), scen.Mixed()}
+		// cheapest first: time a scenario does not need flows to the later, more expensive ones
+		return []scen.Spec{scen.BridgeSpec(), scen.Mixed(), scen.Basket(), scen.Market(), scen.Core()}
 	}
 	Registry["C01"] = func(tier string) int {
-		return engineA("C01", tier, append(shared(), scen.Large()),
+		return engineA("C01", tier, append([]scen.Spec{scen.Large()}, shared()...),
 			func() []explore.Monitor { return []explore.Monitor{&mon.C01{}} },
-			budget(tier, 100*time.Second, 15*time.Minute))
+			budget(tier, 200*time.Second, 15*time.Minute))
 	}
 	Registry["C02"] = func(tier string) int {
 		return engineA("C02", tier, shared(),
 			func() []explore.Monitor { return []explore.Monitor{&mon.C02{}} },
-			budget(tier, 100*time.Second, 15*time.Minute))
+			budget(tier, 200*time.Second, 15*time.Minute))
 	}
 	Registry["C03"] = func(tier string) int {
-		return engineA("C03", tier, append(shared(), scen.GovPool()),
+		return engineA("C03", tier, append([]scen.Spec{scen.GovPool()}, shared()...),
 			func() []explore.Monitor {
 				return []explore.Monitor{&mon.C03{FeePool: scen.FeePool.String(), Authority: scen.G.String()}}
 			},
-			budget(tier, 100*time.Second, 15*time.Minute))
+			budget(tier, 200*time.Second, 15*time.Minute))
 	}
 	Registry["C04"] = func(tier string) int {
 		return engineA("C04", tier, shared(),
 			func() []explore.Monitor { return []explore.Monitor{&mon.C04{}} },
-			budget(tier, 100*time.Second, 15*time.Minute))
+			budget(tier, 200*time.Second, 15*time.Minute))
 	}
 	Registry["C05"] = func(tier string) int {
 		return engineA("C05", tier, []scen.Spec{scen.Basket(), scen.BasketLarge(), scen.Mixed()},
 			func() []explore.Monitor { return []explore.Monitor{&mon.C05{}} },
-			budget(tier, 80*time.Second, 12*time.Minute))
+			budget(tier, 150*time.Second, 12*time.Minute))
 	}
 	Registry["C06"] = func(tier string) int {
 		return engineA("C06", tier, []scen.Spec{scen.Market(), scen.Expiry(), scen.Mixed()},
 			func() []explore.Monitor { return []explore.Monitor{&mon.C06{}} },
-			budget(tier, 80*time.Second, 12*time.Minute))
+			budget(tier, 150*time.Second, 12*time.Minute))
 	}
 	Registry["C12"] = func(tier string) int {
 		return engineA("C12", tier, []scen.Spec{scen.Expiry(), scen.Market(), scen.Mixed()},
 			func() []explore.Monitor { return []explore.Monitor{&mon.C12{}} },
-			budget(tier, 80*time.Second, 12*time.Minute))
+			budget(tier, 150*time.Second, 12*time.Minute))
 	}
 }
